@@ -1,0 +1,218 @@
+//go:build verif
+
+package ssh
+
+// Verification hooks for the wire-format / packet-cipher / negotiation
+// properties (C24, C25, C26, C28).  Add-only, compiled only with -tags verif.
+// Nothing here changes behaviour; it only re-exports unexported entry points.
+
+import (
+	"bufio"
+	"crypto"
+	"io"
+	"reflect"
+	"sort"
+)
+
+// VerifWireMaxPacket is the package's maxPacket limit.
+const VerifWireMaxPacket = maxPacket
+
+// VerifWireCipherInfo describes one entry of cipherModes.
+type VerifWireCipherInfo struct {
+	Name    string
+	KeySize int
+	IVSize  int
+	AEAD    bool
+}
+
+// VerifWireCipherModes lists cipherModes sorted by name.
+func VerifWireCipherModes() []VerifWireCipherInfo {
+	var out []VerifWireCipherInfo
+	for name, m := range cipherModes {
+		out = append(out, VerifWireCipherInfo{Name: name, KeySize: m.keySize, IVSize: m.ivSize, AEAD: aeadCiphers[name]})
+	}
+	sort.Slice(out, func(i, j int) bool { return out[i].Name < out[j].Name })
+	return out
+}
+
+// VerifWireMACInfo describes one entry of macModes.
+type VerifWireMACInfo struct {
+	Name    string
+	KeySize int
+	ETM     bool
+	Size    int
+}
+
+// VerifWireMACModes lists macModes sorted by name.
+func VerifWireMACModes() []VerifWireMACInfo {
+	var out []VerifWireMACInfo
+	for name, m := range macModes {
+		out = append(out, VerifWireMACInfo{Name: name, KeySize: m.keySize, ETM: m.etm, Size: m.new(make([]byte, m.keySize)).Size()})
+	}
+	sort.Slice(out, func(i, j int) bool { return out[i].Name < out[j].Name })
+	return out
+}
+
+// VerifWirePacketCipher wraps a packetCipher (one direction).
+type VerifWirePacketCipher struct {
+	c packetCipher
+}
+
+// VerifWireNewPacketCipher is newPacketCipher: key material is derived by
+// generateKeyMaterial from (K, H, sessionID) with the tags of the chosen
+// direction (serverKeys: server-to-client, clientKeys: client-to-server).
+func VerifWireNewPacketCipher(serverToClient bool, cipherName, macName string, hash crypto.Hash, k, h, sessionID []byte) (*VerifWirePacketCipher, error) {
+	d := clientKeys
+	if serverToClient {
+		d = serverKeys
+	}
+	c, err := newPacketCipher(d, DirectionAlgorithms{Cipher: cipherName, MAC: macName}, &kexResult{K: k, H: h, SessionID: sessionID, Hash: hash})
+	if err != nil {
+		return nil, err
+	}
+	return &VerifWirePacketCipher{c}, nil
+}
+
+// VerifWireNewPacketCipherKeys is cipherModes[name].create with explicit keys.
+func VerifWireNewPacketCipherKeys(cipherName, macName string, key, iv, macKey []byte) (*VerifWirePacketCipher, error) {
+	m := cipherModes[cipherName]
+	if m == nil {
+		return nil, io.ErrUnexpectedEOF
+	}
+	c, err := m.create(key, iv, macKey, DirectionAlgorithms{Cipher: cipherName, MAC: macName})
+	if err != nil {
+		return nil, err
+	}
+	return &VerifWirePacketCipher{c}, nil
+}
+
+// VerifWireNoneCipher is the cipher a transport starts with (no encryption, no MAC).
+func VerifWireNoneCipher() *VerifWirePacketCipher {
+	return &VerifWirePacketCipher{&streamPacketCipher{cipher: noneCipher{}}}
+}
+
+// WritePacket is writeCipherPacket.
+func (p *VerifWirePacketCipher) WritePacket(seq uint32, w io.Writer, rand io.Reader, payload []byte) error {
+	return p.c.writeCipherPacket(seq, w, rand, payload)
+}
+
+// ReadPacket is readCipherPacket.  The result may alias an internal buffer.
+func (p *VerifWirePacketCipher) ReadPacket(seq uint32, r io.Reader) ([]byte, error) {
+	return p.c.readCipherPacket(seq, r)
+}
+
+// VerifWireConnState wraps a connectionState (sequence number handling,
+// msgNewKeys key change).
+type VerifWireConnState struct {
+	s connectionState
+}
+
+// VerifWireNewConnState builds a connectionState with the given cipher and
+// starting sequence number.
+func VerifWireNewConnState(c *VerifWirePacketCipher, seq uint32) *VerifWireConnState {
+	return &VerifWireConnState{connectionState{packetCipher: c.c, seqNum: seq, pendingKeyChange: make(chan packetCipher, 1)}}
+}
+
+// QueueKeyChange is what prepareKeyChange does for one direction.  It
+// reports false if a key change is already pending.
+func (s *VerifWireConnState) QueueKeyChange(c *VerifWirePacketCipher) bool {
+	select {
+	case s.s.pendingKeyChange <- c.c:
+		return true
+	default:
+		return false
+	}
+}
+
+// WritePacket is connectionState.writePacket.
+func (s *VerifWireConnState) WritePacket(w *bufio.Writer, rand io.Reader, payload []byte, strictMode bool) error {
+	return s.s.writePacket(w, rand, payload, strictMode)
+}
+
+// ReadPacket is connectionState.readPacket.
+func (s *VerifWireConnState) ReadPacket(r *bufio.Reader, strictMode bool) ([]byte, error) {
+	return s.s.readPacket(r, strictMode)
+}
+
+// SeqNum returns the current sequence number.
+func (s *VerifWireConnState) SeqNum() uint32 { return s.s.seqNum }
+
+// VerifWireNegotiated mirrors NegotiatedAlgorithms including the unexported
+// compression fields.
+type VerifWireNegotiated struct {
+	Algorithms       NegotiatedAlgorithms
+	ReadCompression  string
+	WriteCompression string
+}
+
+// VerifWireFindAgreedAlgorithms unmarshals two KEXINIT payloads and runs
+// findAgreedAlgorithms.
+func VerifWireFindAgreedAlgorithms(isClient bool, clientKexInit, serverKexInit []byte) (*VerifWireNegotiated, error) {
+	var c, s kexInitMsg
+	if err := Unmarshal(clientKexInit, &c); err != nil {
+		return nil, err
+	}
+	if err := Unmarshal(serverKexInit, &s); err != nil {
+		return nil, err
+	}
+	a, err := findAgreedAlgorithms(isClient, &c, &s)
+	if err != nil {
+		return nil, err
+	}
+	return &VerifWireNegotiated{Algorithms: *a, ReadCompression: a.Read.compression, WriteCompression: a.Write.compression}, nil
+}
+
+// VerifWireIsAEAD reports aeadCiphers[name].
+func VerifWireIsAEAD(name string) bool { return aeadCiphers[name] }
+
+// VerifWireMessageTypes returns the type of every message struct declared in
+// messages.go (in declaration order).
+func VerifWireMessageTypes() []reflect.Type {
+	return []reflect.Type{
+		reflect.TypeOf(disconnectMsg{}),
+		reflect.TypeOf(kexInitMsg{}),
+		reflect.TypeOf(kexDHInitMsg{}),
+		reflect.TypeOf(kexECDHInitMsg{}),
+		reflect.TypeOf(kexECDHReplyMsg{}),
+		reflect.TypeOf(kexDHReplyMsg{}),
+		reflect.TypeOf(kexDHGexGroupMsg{}),
+		reflect.TypeOf(kexDHGexInitMsg{}),
+		reflect.TypeOf(kexDHGexReplyMsg{}),
+		reflect.TypeOf(kexDHGexRequestMsg{}),
+		reflect.TypeOf(serviceRequestMsg{}),
+		reflect.TypeOf(serviceAcceptMsg{}),
+		reflect.TypeOf(extInfoMsg{}),
+		reflect.TypeOf(userAuthRequestMsg{}),
+		reflect.TypeOf(userAuthSuccessMsg{}),
+		reflect.TypeOf(userAuthFailureMsg{}),
+		reflect.TypeOf(userAuthBannerMsg{}),
+		reflect.TypeOf(userAuthInfoRequestMsg{}),
+		reflect.TypeOf(channelOpenMsg{}),
+		reflect.TypeOf(channelDataMsg{}),
+		reflect.TypeOf(channelOpenConfirmMsg{}),
+		reflect.TypeOf(channelOpenFailureMsg{}),
+		reflect.TypeOf(channelRequestMsg{}),
+		reflect.TypeOf(channelRequestSuccessMsg{}),
+		reflect.TypeOf(channelRequestFailureMsg{}),
+		reflect.TypeOf(channelCloseMsg{}),
+		reflect.TypeOf(channelEOFMsg{}),
+		reflect.TypeOf(globalRequestMsg{}),
+		reflect.TypeOf(globalRequestSuccessMsg{}),
+		reflect.TypeOf(globalRequestFailureMsg{}),
+		reflect.TypeOf(windowAdjustMsg{}),
+		reflect.TypeOf(userAuthPubKeyOkMsg{}),
+		reflect.TypeOf(userAuthGSSAPIResponse{}),
+		reflect.TypeOf(userAuthGSSAPIToken{}),
+		reflect.TypeOf(userAuthGSSAPIMIC{}),
+		reflect.TypeOf(userAuthGSSAPIErrTok{}),
+		reflect.TypeOf(userAuthGSSAPIError{}),
+		reflect.TypeOf(pingMsg{}),
+		reflect.TypeOf(pongMsg{}),
+	}
+}
+
+// VerifWireDecode is decode (the packet decoder).  decode indexes packet[0];
+// its callers only pass non-empty packets.
+func VerifWireDecode(packet []byte) (interface{}, error) {
+	return decode(packet)
+}
